@@ -326,6 +326,8 @@ impl Octree {
     ) -> Option<Leaf<3>> {
         let mask = self.collapsible(index)?;
         *hermite = LeafHermiteData::merge(hermite_data)?;
+        #[cfg(fidget_verif)]
+        let children = self.cells[index];
 
         // Empty / full cells should never be produced here.  The
         // only way to get an empty / full cell is for all eight
@@ -353,6 +355,25 @@ impl Octree {
         for e in edges[0] {
             let i = hermite.intersections[e.to_undirected().index()];
             self.verts.push(CellVertex { pos: i.pos.xyz() });
+        }
+
+        #[cfg(fidget_verif)]
+        {
+            // The eight children as corner masks (0 = empty, 255 = full) and
+            // the mask of the leaf that replaces them
+            const NAMES: [&str; 8] =
+                ["c0", "c1", "c2", "c3", "c4", "c5", "c6", "c7"];
+            let mut fields = vec![("mask", mask.index() as i64)];
+            for (name, c) in NAMES.iter().zip(children.iter()) {
+                let m = match c {
+                    Cell::Leaf(Leaf { mask, .. }) => mask.index() as i64,
+                    Cell::Empty => 0,
+                    Cell::Full => 255,
+                    Cell::Branch { .. } | Cell::Invalid => -1,
+                };
+                fields.push((*name, m));
+            }
+            fidget_core::verif::emit("collapse", &fields);
         }
 
         Some(Leaf { mask, index })
